@@ -291,7 +291,7 @@ fn simpler(e: &Ev, timeout: u128) -> Vec<Ev> {
                 }
             }
         }
-        Ev::Poll { .. } | Ev::Reset | Ev::Snapshot | Ev::Restore => {}
+        Ev::Poll { .. } | Ev::Reset | Ev::Snapshot | Ev::Restore | Ev::FeedAbort { .. } => {}
     }
     v
 }
